@@ -133,3 +133,19 @@ Section SchedProofs.
     - rewrite count_occ_repeat_neq by (intros E; subst; auto). rewrite IH by auto. lia.
   Qed.
 End SchedProofs.
+
+(** The kernel phase of the concrete engine model of Kernel/Ref.v (synchronisation programs) is the instance of
+    [kernel_phase] whose handler is the reference step function: the schedule-independence theorems above apply to it. *)
+From SGV Require Import Kernel.Ref.
+Definition handle_ref (P : prog) (a : nat) (st : state * list unit) : state * list unit * list nat :=
+  match actor_step P a (fst st) with Some (s', ws) => ((s', snd st), ws) | None => (st, []) end.
+Lemma handle_all_is_kernel_phase : forall P l s ls next tr s' next' tr',
+  handle_all P l s next tr = (s', next', tr') ->
+  kernel_phase (handle_ref P) l (s, ls) next = ((s', ls), next').
+Proof.
+  intros P l. induction l as [|a r IH]; intros s ls next tr s' next' tr' H; cbn [handle_all kernel_phase] in *.
+  - inv H. reflexivity.
+  - unfold handle_ref at 1. cbn [fst snd]. destruct (actor_step P a s) as [[s1 ws]|] eqn:E.
+    + eapply IH; eauto.
+    + rewrite app_nil_r. eapply IH; eauto.
+Qed.
